@@ -29,6 +29,8 @@ class Obl:
     fns: List[str] = field(default_factory=list)   # functions of /repo under contract
     features: str = ""      # cargo features of the harness crate ("" = default)
     note: str = ""
+    only: str = ""          # regex: of the harness's own OBS assertions, only these belong to this property
+    confirm: str = ""       # confirmation harness run when only INT (representation) assertions fail
 
 
 def _c01() -> List[Obl]:
@@ -56,9 +58,255 @@ def _c01() -> List[Obl]:
     return out
 
 
+def _reader(prop: str, only: str, which) -> List[Obl]:
+    """Obligations on BufBitReader / BitReader harnesses; `which` selects ops."""
+    out = []
+    pl = prop.lower()
+    ops = {
+        # name: (harness, kind, bound, fns)
+        "new": ("c02_new", "complete", "", ["new"]),
+        "read_bits": ("c02_read_bits", "complete", "", ["read_bits"]),
+        "peek_bits": ("c02_peek_bits", "complete", "", ["peek_bits", "refill"]),
+        "skip_bits_after_peek": ("c02_skip_bits_after_peek", "complete", "", ["skip_bits_after_peek"]),
+        "read_unary.K2": ("c02_read_unary_k2", "bounded", "backend window K=2 words (all streams; Ok-path for codes ending within 2 backend reads)", ["read_unary"]),
+        "read_unary.K4": ("c02_read_unary_k4", "bounded", "backend window K=4 words", ["read_unary"]),
+        "skip_bits.K2": ("c02_skip_bits_k2", "bounded", "backend window K=2 words (every n explored)", ["skip_bits"]),
+        "skip_bits.K4": ("c02_skip_bits_k4", "bounded", "backend window K=4 words", ["skip_bits"]),
+        "clone": ("c02_clone", "complete", "", ["clone"]),
+        "bit_pos": ("c07_bit_pos", "complete", "", ["bit_pos"]),
+        "set_bit_pos": ("c07_set_bit_pos", "complete", "", ["set_bit_pos", "bit_pos"]),
+    }
+    for el, E in ENDIANS:
+        for w in RWORDS:
+            base = f"obl_reader::{el}::{w}_::"
+            R = f"BufBitReader<{E},_<{w}>>"
+            for name in which:
+                if name not in ops:
+                    continue
+                h, kind, bound, fns = ops[name]
+                tier = "quick" if (w in QUICK_R and not name.endswith(".K4")) else "thorough"
+                out.append(Obl(id=f"{pl}.{name}.{E}.{w}", prop=prop, engine="kani", target=base + h, tier=tier,
+                               kind=kind, bound=bound, fns=[f"{R}::{f}" for f in fns], only=only,
+                               confirm=base + "c02_confirm"))
+            if "confirm" in which:
+                out.append(Obl(id=f"{pl}.two_step.{E}.{w}", prop=prop, engine="kani", target=base + "c02_confirm", tier="thorough",
+                               kind="bounded", bound="one symbolic operation followed by an optional peek and a read (2-3 step histories)",
+                               fns=[f"{R}::*"], only=only))
+    bops = {
+        "new": ("c02_new", "complete", "", ["new"]),
+        "read_bits": ("c02_read_bits", "complete", "", ["read_bits"]),
+        "peek_bits": ("c02_peek_bits", "complete", "", ["peek_bits"]),
+        "skip_bits": ("c02_skips", "complete", "", ["skip_bits", "skip_bits_after_peek"]),
+        "read_unary.K2": ("c02_read_unary_k2", "bounded", "backend window K=2 words", ["read_unary"]),
+        "read_unary.K4": ("c02_read_unary_k4", "bounded", "backend window K=4 words", ["read_unary"]),
+        "clone": ("c02_clone", "complete", "", ["clone"]),
+        "set_bit_pos": ("c07_seek", "complete", "", ["bit_pos", "set_bit_pos"]),
+    }
+    for el, E in ENDIANS:
+        for name in which:
+            if name not in bops:
+                continue
+            h, kind, bound, fns = bops[name]
+            tier = "thorough" if name.endswith(".K4") else "quick"
+            out.append(Obl(id=f"{pl}.{name}.{E}.unbuffered", prop=prop, engine="kani", target=f"obl_bitreader::{el}::{h}", tier=tier,
+                           kind=kind, bound=bound, fns=[f"BitReader<{E},_>::{f}" for f in fns], only=only))
+    return out
+
+
+def _c02() -> List[Obl]:
+    out = _reader("C02", r"c02|confirm", ["new", "read_bits", "peek_bits", "skip_bits_after_peek", "read_unary.K2", "read_unary.K4",
+                                 "skip_bits", "skip_bits.K2", "skip_bits.K4", "clone", "confirm"])
+    # zero extension of the memory backend (contract of MemWordReader<_,_,true>)
+    for w in ["u8", "u64"]:
+        out.append(Obl(id=f"c02.zero_extension.{w}", prop="C02", engine="kani", target=f"obl_c13::{w}_::reader_inf_k3", kind="bounded",
+                       bound="array length <= 3 (contents, length, cursor symbolic)", fns=["MemWordReader<_,_,true>::read_word"]))
+    return out
+
+
+def _c07() -> List[Obl]:
+    return _reader("C07", r"c07|advance|positioned|move|confirm: position", ["read_bits", "peek_bits", "skip_bits_after_peek", "read_unary.K2",
+                                                          "skip_bits", "skip_bits.K2", "bit_pos", "set_bit_pos", "confirm"])
+
+
+def _c09_impl() -> List[Obl]:
+    out = _reader("C09", r"c09", ["read_bits", "peek_bits", "read_unary.K2", "read_unary.K4", "skip_bits.K2"])
+    for w in ["u8", "u64"]:
+        out.append(Obl(id=f"c09.strict_backend.{w}", prop="C09", engine="kani", target=f"obl_c13::{w}_::reader_strict_k3", kind="bounded",
+                       bound="array length <= 3", fns=["MemWordReader<_,_,false>::read_word", "MemWordReader<_,_,false>::set_word_pos"]))
+        out.append(Obl(id=f"c09.zero_extended_backend.{w}", prop="C09", engine="kani", target=f"obl_c13::{w}_::reader_inf_k3", kind="bounded",
+                       bound="array length <= 3", fns=["MemWordReader<_,_,true>::read_word"]))
+    return out
+
+
+def _c13() -> List[Obl]:
+    out = []
+    for w in WWORDS:
+        for k in (3, 6):
+            tier = "quick" if (k == 3 and w in QUICK_W) else "thorough"
+            for name, fns in (("reader_inf", ["MemWordReader<_,_,true>::{new,read_word,word_pos,set_word_pos}"]),
+                              ("reader_strict", ["MemWordReader<_,_,false>::{new_strict,read_word,word_pos,set_word_pos}"]),
+                              ("writer_slice", ["MemWordWriterSlice::{new,len,is_empty,read_word,write_word,flush,word_pos,set_word_pos,into_inner}"])):
+                out.append(Obl(id=f"c13.{name}.{w}.K{k}", prop="C13", engine="kani", target=f"obl_c13::{w}_::{name}_k{k}", tier=tier,
+                               kind="bounded", bound=f"array length <= {k}; contents, length, cursor, operation and storage kind symbolic", fns=fns))
+        for ln in range(4):
+            for st in ("owned", "borrowed"):
+                tier = "quick" if w == "u8" else "thorough"
+                out.append(Obl(id=f"c13.writer_vec.{w}.len{ln}.{st}", prop="C13", engine="kani", target=f"obl_c13::{w}_::writer_vec_len{ln}_{st}", tier=tier,
+                               kind="bounded", bound=f"vector of length {ln} ({st} storage); contents, cursor and operation symbolic",
+                               fns=["MemWordWriterVec::{new,len,is_empty,read_word,write_word,flush,word_pos,set_word_pos,into_inner}"]))
+    return out
+
+
+def _c17() -> List[Obl]:
+    return [Obl(id=f"c17.{n}", prop="C17", engine="kani", target=f"obl_c17::c17_{n}", fns=[f"ToInt for u{n}::to_int", f"ToNat for i{n}::to_nat"])
+            for n in ("8", "16", "32", "64", "128", "size")]
+
+
+def _c11() -> List[Obl]:
+    out = []
+    budgets = {"u8": 3, "u16": 4, "u32": 6, "u64": 4, "u128": 3}
+    for w in WWORDS:
+        full = w in ("u8", "u16", "u32")
+        tier = "quick" if w in ("u8", "u16", "u64") else "thorough"
+        bnd = f"fault schedules of up to {budgets[w]} calls of the wrapped object, every call symbolic (short count / Interrupted / error)"
+        for name, fns in (("write_word", ["WordAdapter::write_word"]), ("read_word", ["WordAdapter::read_word"])):
+            out.append(Obl(id=f"c11.{name}.{w}", prop="C11", engine="kani", target=f"obl_c11::{w}_::c11_{name}", tier=tier,
+                           kind="complete" if full else "bounded",
+                           bound="" if full else bnd + " (a complete schedule needs BYTES+2 calls)",
+                           fns=fns, note=bnd))
+        out.append(Obl(id=f"c11.positions.{w}", prop="C11", engine="kani", target=f"obl_c11::{w}_::c11_positions", tier=tier, kind="bounded",
+                       bound="Cursor over at most 2 words plus a partial tail; contents, length and target word symbolic",
+                       fns=["WordAdapter::word_pos", "WordAdapter::set_word_pos", "WordAdapter::read_word"]))
+    return out
+
+
+def _c20() -> List[Obl]:
+    out = [Obl(id="c20.fcp.new", prop="C20", engine="verus", target="find_change:new", fns=["FindChangePoints::new"]),
+           Obl(id="c20.fcp.next", prop="C20", engine="verus", target="find_change:next", fns=["FindChangePoints::next"]),
+           Obl(id="c20.fcp.lemma_flat", prop="C20", engine="verus", target="find_change:lemma_flat", fns=[])]
+    return out
+
+
+# ---------------------------------------------------------------------------
+# Engine B: generic code functions on the abstract model
+# ---------------------------------------------------------------------------
+CODE_FNS = {
+    "unary": ["BitWrite::write_unary (contract)", "BitRead::read_unary (contract)"],
+    "gamma": ["codes::gamma::{write_gamma_param,default_write_gamma,read_gamma_param,default_read_gamma,len_gamma_param,len_gamma}", "codes::gamma_tables::{write_table_*,read_table_*}"],
+    "delta": ["codes::delta::{write_delta_param,default_write_delta,read_delta_param,default_read_delta,len_delta_param,len_delta}", "codes::delta_tables::{write_table_*,read_table_*}"],
+    "omega": ["codes::omega::{write_omega,recursive_write,read_omega,len_omega,recursive_len}"],
+    "zeta": ["codes::zeta::{write_zeta_param,default_write_zeta,read_zeta_param,default_read_zeta,len_zeta_param,len_zeta}", "codes::minimal_binary::*"],
+    "zeta3": ["codes::zeta::{write_zeta3_param,read_zeta3_param}", "codes::zeta_tables::{write_table_*,read_table_*}"],
+    "pi": ["codes::pi::{write_pi,read_pi,len_pi}", "codes::rice::*"],
+    "rice": ["codes::rice::{write_rice,read_rice,len_rice}"],
+    "exp_golomb": ["codes::exp_golomb::{write_exp_golomb,read_exp_golomb,len_exp_golomb}", "codes::gamma::*"],
+    "vbyte": ["codes::vbyte::{write_vbyte_be,write_vbyte_le,read_vbyte_be,read_vbyte_le,bit_len_vbyte,byte_len_vbyte}"],
+    "golomb": ["codes::golomb::{write_golomb,read_golomb,len_golomb}", "codes::minimal_binary::{write_minimal_binary,read_minimal_binary,len_minimal_binary}"],
+}
+
+
+def _fns_for(h: str) -> List[str]:
+    for key in ("exp_golomb", "zeta3", "gamma", "delta", "omega", "zeta", "pi", "rice", "vbyte", "unary"):
+        if key in h:
+            return CODE_FNS[key]
+    return []
+
+
+DEF_H = ["def_unary", "def_gamma", "def_gamma_t", "def_delta", "def_delta_tt", "def_delta_tf", "def_delta_ft", "def_omega", "def_zeta", "def_zeta_t",
+         "def_zeta3", "def_zeta3_t", "def_pi", "def_rice", "def_exp_golomb", "def_vbyte_be", "def_vbyte_le"]
+LEN_H = ["len_gamma", "len_gamma_t", "len_delta", "len_delta_tt", "len_delta_ft", "len_delta_tf", "len_omega", "len_zeta", "len_zeta_t", "len_pi",
+         "len_rice", "len_exp_golomb", "len_vbyte"]
+RT_BASE = ["rt_unary", "rt_gamma", "rt_gamma_t", "rt_delta", "rt_delta_t", "rt_omega", "rt_zeta3", "rt_zeta3_t", "rt_vbyte_be", "rt_vbyte_le"]
+KGRID = [1, 2, 3, 4, 5, 8, 13, 31, 32, 33, 62, 63]
+RT_K = ([f"rt_zeta_k{k}" for k in KGRID] + [f"rt_{c}_k{k}" for c in ("pi", "rice", "exp_golomb") for k in [0] + KGRID])
+RT_K_QUICK = {"rt_zeta_k1", "rt_zeta_k2", "rt_zeta_k8", "rt_zeta_k63", "rt_pi_k0", "rt_pi_k2", "rt_pi_k8", "rt_rice_k0", "rt_rice_k3", "rt_rice_k63",
+              "rt_exp_golomb_k0", "rt_exp_golomb_k1", "rt_exp_golomb_k8"}
+TVB_H = ["tvb_gamma", "tvb_delta_tt", "tvb_delta_tf", "tvb_delta_ft", "tvb_zeta3", "tvb_omega"]
+GOLOMB_B = ["b1", "b2", "b3", "b4", "b5", "b6", "b7", "b8", "b9", "b10", "b11", "b12", "b13", "b15", "b16", "b17", "b20", "b31", "b32", "b33", "b63", "b64",
+            "b65", "b100", "b2p32m1", "b2p32", "b2p32p1", "b2p63m1", "b2p63", "b2p63p1", "bmax"]
+GOLOMB_QUICK = {"b3", "b7", "b10"}
+UNARY_BOUND = "codeword must fit the 256-bit abstract stream (unary / Rice / Golomb quotient < ~250); value, parameter and surrounding bits symbolic"
+
+
+def _kind_for(h: str):
+    if "unary" in h or "rice" in h or "golomb" in h and "exp_golomb" not in h:
+        return "bounded", UNARY_BOUND
+    return "complete", ""
+
+
+def _codes(prop: str, only: str, groups) -> List[Obl]:
+    """groups: list of (harness list, quick-set or None=all quick)"""
+    out = []
+    pl = prop.lower()
+    for hm, E in (("hbe", "BE"), ("hle", "LE")):
+        for hs, quick in groups:
+            for h in hs:
+                kind, bound = _kind_for(h)
+                if h.startswith("len_"):
+                    kind, bound = "complete", ""
+                tier = "quick" if (quick is None or h in quick) else "thorough"
+                out.append(Obl(id=f"{pl}.{h}.{E}", prop=prop, engine="kani", target=f"obl_codes::{hm}::{h}", tier=tier, kind=kind, bound=bound,
+                               fns=_fns_for(h), only=only))
+    return out
+
+
+def _golomb(prop: str, only: str, which) -> List[Obl]:
+    out = []
+    pl = prop.lower()
+    for gm, E in (("golomb_be", "BE"), ("golomb_le", "LE")):
+        for b in GOLOMB_B:
+            for h in which:
+                tier = "quick" if b in GOLOMB_QUICK else "thorough"
+                kind, bound = ("bounded", "constant modulus (grid point " + b + "); " + UNARY_BOUND)
+                if h == "len":
+                    bound = "constant modulus (grid point " + b + "); every value"
+                out.append(Obl(id=f"{pl}.golomb.{h}.{b}.{E}", prop=prop, engine="kani", target=f"obl_codes::{gm}::{b}::{h}", tier=tier, kind=kind,
+                               bound=bound, fns=CODE_FNS["golomb"], only=only))
+    return out
+
+
+def _c03() -> List[Obl]:
+    return (_codes("C03", r"c03|contract", [(RT_BASE, None), (RT_K, RT_K_QUICK)]) + _golomb("C03", r"c03|contract", ["rt", "mb_rt"]))
+
+
+def _c04() -> List[Obl]:
+    return (_codes("C04", r"c04|contract", [(DEF_H, None)]) + _golomb("C04", r"c04|contract", ["def", "mb_def"]))
+
+
+def _c05() -> List[Obl]:
+    out = _codes("C05", r"c05|contract", [(["tvb_gamma", "tvb_delta_tt", "tvb_delta_tf", "tvb_delta_ft", "tvb_zeta3"], {"tvb_gamma", "tvb_delta_tt", "tvb_zeta3"})])
+    # encoding / length tables: table variants against the same definition as the bit-by-bit variants
+    out += _codes("C05", r"c04|c06|contract", [(["def_gamma", "def_gamma_t", "def_delta", "def_delta_tt", "def_delta_tf", "def_delta_ft", "def_zeta3", "def_zeta3_t"], None),
+                                                (["len_gamma", "len_gamma_t", "len_delta", "len_delta_tt", "len_delta_ft", "len_delta_tf", "len_zeta", "len_zeta_t"], None)])
+    for t in ("gamma_be", "gamma_le", "delta_be", "delta_le", "zeta_be", "zeta_le"):
+        out.append(Obl(id=f"c05.table.{t}", prop="C05", engine="kani", target=f"obl_codes::tables::{t}", fns=[f"codes::{t.split('_')[0]}_tables::{{READ_*,READ_LEN_*,read_table_{t.split('_')[1]}}}"]))
+    return out
+
+
+def _c06() -> List[Obl]:
+    return (_codes("C06", r"c06", [(LEN_H, None), (DEF_H, None)]) + _golomb("C06", r"c06", ["len", "def"])
+            + _codes("C06", r"bits consumed", [(["rt_gamma", "rt_delta", "rt_omega", "rt_zeta3", "rt_vbyte_be", "rt_zeta_k2", "rt_pi_k2", "rt_exp_golomb_k1"], None)]))
+
+
+def _c09_codes() -> List[Obl]:
+    return _codes("C09", r"c09", [(["tvb_gamma", "tvb_delta_tt", "tvb_zeta3", "tvb_omega"], {"tvb_gamma", "tvb_zeta3", "tvb_omega"})])
+
+
+def _c08() -> List[Obl]:
+    out = []
+    for u, fn in (("copy_to_generic", "copy_to"), ("copy_from_generic", "copy_from")):
+        for feats in ("", "checks"):
+            sfx = ".checks" if feats else ""
+            out.append(Obl(id=f"c08.generic.{fn}{sfx}", prop="C08", engine="verus", target=f"{u}:{fn}", features=feats,
+                           fns=[f"traits::bits::{'BitRead' if fn == 'copy_to' else 'BitWrite'}::{fn} (default method)"],
+                           note="real text of the default chunked loop inside the contract-carrying trait declaration; unbounded n"))
+            out.append(Obl(id=f"c08.generic.{fn}.lemma_chunk{sfx}", prop="C08", engine="verus", target=f"{u}:lemma_chunk", features=feats, fns=[]))
+    return out
+
+
 def all_obligations() -> List[Obl]:
     obls: List[Obl] = []
-    for f in (_c01,):
+    for f in (_c01, _c02, _c03, _c04, _c05, _c06, _c07, _c08, _c09_impl, _c09_codes, _c11, _c13, _c17, _c20):
         obls.extend(f())
     ids = [o.id for o in obls]
     assert len(ids) == len(set(ids)), "duplicate obligation ids"
